@@ -170,11 +170,14 @@ class CriticalPathCalculator:
         for n in self.__nodes:
             self.__backward(n)
 
+        # floats: sums of fractional estimates along different chains differ by rounding errors
+        eps = 1e-6
+
         res = []
         for k, v in self.__links.items():
             # print(k, f"{v.start.start_units} - {v.start.end_units}", f"{v.end.start_units} - {v.end.end_units}")
             r = v.end.end_units - v.start.start_units - v.units
-            if r == 0:
+            if abs(r) <= eps:
                 res.append(self.__tasks[k])
 
         if self.__end_date is None:
